@@ -188,6 +188,18 @@ CHECKS = {
             "Model in vchecks/c11.py; reset-less domains; simulator process order pinned (vlib/simorder.py). The RTLIL side "
             "of the property is exercised through C04's evaluator.",
             "DESIGN.md §4 C11"),
+    "C03": ("exploration",
+            "Hypothesis-generated module trees with stacked ResetInserter/EnableInserter/DomainRenamer wrappers, memories, "
+            "split signals and harness-owned multi-clock schedules; differential against the reference interpreter plus a "
+            "wrapper/domain model",
+            "Each generated design has up to five modules, each with its own generated program in two locally named "
+            "domains, FSMs, reset-less registers, a signal split between domains, ClockSignal/ResetSignal observers and "
+            "optionally a memory; wrappers are stacked and nested arbitrarily. The schedule toggles arbitrary subsets of "
+            "three clocks in one instant (pos/neg edge, sync/async/no reset) and changes resets, controls and inputs in "
+            "between. Every register, FSM state, split chunk, memory row, read port and observer is compared after every "
+            "event with a model that applies wrappers from the innermost outwards and the domain's own reset last.",
+            "vlib/refsem.py Interp + wrapper model in vchecks/c03.py. Read-port output after the domain's own reset is not judged.",
+            "DESIGN.md §4 C03"),
 }
 
 TITLES = {}
